@@ -239,6 +239,17 @@ fn main_check(ctx: &Ctx) -> Outcome {
     };
     let nchunks = sweep("StripBytes::strip_next/chunk", &alpha, n_named, &states_cls, "cls");
     out.push_part(json!({"system":"StripBytes::strip_next/chunk","symbols":alpha.len(),"max_chunk_len":n_named,"chunks":nchunks,"start_states":states_cls.len()}));
+    // every chunk of <= 2 bytes over all 256 byte values from every byte-reachable state: a byte the code singles out
+    // without the state table or the named predicates knowing (so that it has no class of its own) still meets every
+    // neighbour inside one chunk
+    {
+        let all: Vec<u8> = (0..=255u8).collect();
+        // (the byte-reachable states differ from the class-reachable ones only in the code point bits the UTF-8 decoder
+        // has collected; the thorough tier starts from all of them)
+        let (starts, hint) = if quick { (&states_cls, "cls") } else { (&states256, "all") };
+        let nch = sweep("StripBytes::strip_next/chunk", &all, 2, starts, hint);
+        out.push_part(json!({"system":"StripBytes::strip_next/chunk(all 256 byte values)","symbols":256,"max_chunk_len":2,"chunks":nch,"start_states":starts.len(),"start_set":hint}));
+    }
     if !quick {
         // longer chunks over the bare class representatives, and every byte-reachable start state for n<=3
         let n5 = 5;
